@@ -1632,7 +1632,7 @@ impl Tyme for SolarTerm {
   fn next(&self, n: isize) -> Self {
     let size: isize = self.get_size() as isize;
     let i: isize = self.get_index() as isize + n;
-    Self::from_index((self.year * size + i) / size, self.parent.index_of_index(i) as isize)
+    Self::from_index((self.year * size + i).div_euclid(size), self.parent.index_of_index(i) as isize)
   }
 }
 
@@ -1645,7 +1645,7 @@ impl Culture for SolarTerm {
 impl SolarTerm {
   pub fn from_index(year: isize, index: isize) -> Self {
     let size: isize = SOLAR_TERM_NAMES.len() as isize;
-    let y: isize = (year * size + index) / size;
+    let y: isize = (year * size + index).div_euclid(size);
     let parent: LoopTyme = LoopTyme::from_index(SOLAR_TERM_NAMES.to_vec().iter().map(|x| x.to_string()).collect(), index);
     let jd: f64 = ((y as f64 - 2000.0) * 365.2422 + 180.0).floor();
     // 355是2000.12冬至，得到较靠近jd的冬至估计值
